@@ -17,6 +17,7 @@ Rewrites (one site at a time, applied to the source text):
   MERGEIF  nested ifs without else merged with `and`;  SWAPINDEP adjacent constant stores to different fields of self exchanged
   FSTR     'a{}b'.format(x) -> f'a{x}b'
   GUARD    `if c: BODY` as last statement of a loop body / function -> `if not c: continue / return` followed by BODY
+  EXTRACT  one statement moved into a new private method of the class (extract method), read locals passed as arguments
   ALIAS    an attribute path used at least twice (`self.machine.events`) bound to a new local at the top of the function
 
 usage: twins.py Cnn [--kinds K ...] [--show N]
@@ -242,6 +243,7 @@ def twins_in(func_node, btext, offs):
     for n in ast.walk(func_node):
         if isinstance(n, (ast.For, ast.AsyncFor, ast.While)) and not n.orelse:
             _guard(n.body, "loop")
+    out.extend(_extract_twins(func_node, btext, offs, params))
     for n in ast.walk(func_node):
         if isinstance(n, ast.If) and n.orelse and not (len(n.orelse) == 1 and isinstance(n.orelse[0], ast.If)):
             m = ast.If(test=ast.UnaryOp(op=ast.Not(), operand=n.test), body=n.orelse, orelse=n.body)
@@ -263,6 +265,75 @@ def twins_in(func_node, btext, offs):
         if isinstance(n, (ast.If, ast.While)):
             ns, ne = _rng(n.test, offs)
             out.append(("PARENS", ns, ne, "(%s)" % btext[ns:ne].decode("utf-8"), n.lineno, "parenthesise test"))
+    return out
+
+
+def _extract_twins(func_node, btext, offs, params, limit=4):
+    """EXTRACT: one statement of a method (a call, a store to a field, an `if` block) that binds no local and does not leave
+    (no return / break / continue / yield / await) is moved into a new private method of the class, the locals it reads passed
+    as arguments.  The whole method plus the new helper replace the method's text."""
+    out = []
+    a = func_node.args
+    if not a.args or a.args[0].arg != "self" or func_node.decorator_list:
+        return out
+    if any(isinstance(x, (ast.FunctionDef, ast.AsyncFunctionDef, ast.Lambda, ast.ClassDef, ast.Global, ast.Nonlocal)) for x in ast.walk(func_node) if x is not func_node):
+        return out
+    locs = set(params)
+    for n in ast.walk(func_node):
+        if isinstance(n, ast.Name) and isinstance(n.ctx, (ast.Store, ast.Del)):
+            locs.add(n.id)
+        if isinstance(n, ast.ExceptHandler) and n.name:
+            locs.add(n.name)
+    s, e = _rng(func_node, offs)
+    k = 0
+    for parent in ast.walk(func_node):
+        for fld in ("body", "orelse"):
+            lst = getattr(parent, fld, None)
+            if not isinstance(lst, list) or isinstance(parent, (ast.Try,)):
+                continue
+            for i, st in enumerate(lst):
+                if k >= limit:
+                    return out
+                if not isinstance(st, (ast.Expr, ast.Assign, ast.AugAssign, ast.If)):
+                    continue
+                if isinstance(st, ast.Expr) and isinstance(st.value, ast.Constant):
+                    continue
+                sub = list(ast.walk(st))
+                if any(isinstance(x, (ast.Return, ast.Break, ast.Continue, ast.Yield, ast.YieldFrom, ast.Await, ast.NamedExpr, ast.comprehension, ast.Delete, ast.Try,
+                                      ast.With, ast.For, ast.While)) for x in sub):
+                    continue
+                if any(isinstance(x, ast.Name) and isinstance(x.ctx, (ast.Store, ast.Del)) for x in sub):
+                    continue
+                if any(isinstance(x, ast.Call) and isinstance(x.func, ast.Name) and x.func.id in ("super", "locals", "vars") for x in sub):
+                    continue
+                reads = sorted({x.id for x in sub if isinstance(x, ast.Name) and isinstance(x.ctx, ast.Load) and x.id in locs and x.id != "self"})
+                hname = "_vp_moved_%d" % st.lineno
+                call = ast.Expr(value=ast.Call(func=ast.Attribute(value=ast.Name(id="self", ctx=ast.Load()), attr=hname, ctx=ast.Load()),
+                                               args=[ast.Name(id=r, ctx=ast.Load()) for r in reads], keywords=[]))
+                fn2 = copy.deepcopy(func_node)
+                # find the same statement in the copy by position
+                tgt = None
+                for p2 in ast.walk(fn2):
+                    l2 = getattr(p2, fld, None)
+                    if isinstance(l2, list):
+                        for j, s2 in enumerate(l2):
+                            if type(s2) is type(st) and getattr(s2, "lineno", None) == st.lineno and getattr(s2, "col_offset", None) == st.col_offset:
+                                tgt = (l2, j)
+                if tgt is None:
+                    continue
+                tgt[0][tgt[1]] = call
+                hdef = ast.FunctionDef(name=hname, args=ast.arguments(posonlyargs=[], args=[ast.arg(arg="self")] + [ast.arg(arg=r) for r in reads], kwonlyargs=[],
+                                                                       kw_defaults=[], defaults=[]), body=[copy.deepcopy(st)], decorator_list=[], returns=None,
+                                       type_comment=None, lineno=1, col_offset=0)
+                try:
+                    hdef.type_params = []
+                except Exception:
+                    pass
+                ast.fix_missing_locations(fn2)
+                ast.fix_missing_locations(hdef)
+                txt = _u(fn2) + "\n\n" + _u(hdef)
+                out.append(("EXTRACT", s, e, _indent(txt, func_node.col_offset), st.lineno, "move `%s` into a helper" % _u(st).split("\n")[0][:50]))
+                k += 1
     return out
 
 
